@@ -29,10 +29,16 @@ import (
 	"github.com/wader/fq/zzverif/sim/instr"
 )
 
-const (
-	repoDir  = "/repo"
-	verifDir = "/verif"
-)
+const repoDir = "/repo"
+
+// verifDir is where this checkout of the verification tree lives (VERIF_DIR
+// lets a git worktree of /verif use its own sources).
+var verifDir = func() string {
+	if d := os.Getenv("VERIF_DIR"); d != "" {
+		return d
+	}
+	return "/verif"
+}()
 
 func fatal2(f string, a ...any) {
 	fmt.Fprintf(os.Stderr, "simctl: "+f+"\n", a...)
